@@ -285,13 +285,13 @@ class VolumeImg(VolumeGrid):
         else:
             slice1 = slice(None, None, None)
         if pixdim[1] < 0:
-            b[1] = b[1] + 1 + pixdim[1]*(data.shape[1] - 1)
+            b[1] = b[1] + pixdim[1]*(data.shape[1] - 1)
             pixdim[1] = -pixdim[1]
             slice2 = slice(None, None, -1)
         else:
             slice2 = slice(None, None, None)
         if pixdim[2] < 0:
-            b[2] = b[2] + 1 + pixdim[2]*(data.shape[2] - 1)
+            b[2] = b[2] + pixdim[2]*(data.shape[2] - 1)
             pixdim[2] = -pixdim[2]
             slice3 = slice(None, None, -1)
         else:
